@@ -463,6 +463,7 @@ class World:
         self.hspec: dict[int, dict] = {}
         self.counters: dict[str, int] = {}
         self.memo: dict[str, tuple] = {}
+        self.tdecisions: dict[str, list] = {}
         self.trace: list = []
         self.pristine: PristineRef | None = None
         self.last_data = None
@@ -810,6 +811,8 @@ def do_step(w: World, step: dict) -> None:
         do_sweep(w, step)
     elif k == "par":
         do_par(w, step)
+    elif k == "tpar":
+        do_tpar(w, step)
     elif k == "advance":
         w.clock.advance(step["dt"])
         w.count("F7_clock")
@@ -963,6 +966,58 @@ def do_sweep(w: World, step: dict) -> None:
         w.judge(after, got, f"after-{kind}@{k}")
 
 
+def do_tpar(w: World, step: dict) -> None:
+    """Caller THREADS: k synchronous renders on shared objects of one environment, run by real
+    threads whose interleaving the simulator decides (sim/threads.py: baton passing,
+    pre-emption at seeded line events inside the library, SimLock).  Each result must equal
+    the same call on freshly built objects, alone."""
+    import os
+
+    from sim import threads as simthreads
+
+    prepared = []
+    for tk in step["tasks"]:
+        hid = tk["h"]
+        if hid not in w.hspec:
+            return
+        w.activate(w.shared, w.hspec[hid]["env"])
+        st = w.shared.handles.get(hid)
+        if st is None or st[0] != "ok":
+            return
+        d, _ = w.data(tk["data"], None, "d")
+        prepared.append((st[1], d))
+
+    def mk(t, d):
+        def fn():
+            try:
+                return ("ok", common.norm(t.render(**d)))
+            except Inconclusive:
+                raise
+            except BaseException as exc:  # noqa: BLE001
+                if isinstance(exc, (SystemExit, KeyboardInterrupt)):
+                    raise
+                return canon_exc(exc)
+        return fn
+
+    prefix = os.path.join(common.repo_root(), "liquid2") + os.sep
+    sim = simthreads.ThreadSim(random.Random(f"{w.plan['seed']}:tpar:{step['id']}"), (prefix,),
+                               decisions=(w.plan.get("tdecisions") or {}).get(str(step["id"])))
+    res = sim.run([mk(t, d) for t, d in prepared])
+    w.tdecisions[str(step["id"])] = sim.decisions
+    w.count("thread_batches")
+    w.count("thread_preemptions", sim.preemptions)
+    w.count("thread_line_events", sim.line_events)
+    if sim.preemptions:
+        w.count("thread_batches_interleaved")
+    for i, tk in enumerate(step["tasks"]):
+        r = res[i]
+        if r[0] == "exc":
+            raise r[1]
+        st = {"op": "render", "h": tk["h"], "data": tk["data"], "mode": "s", "id": f"{step['id']}.{i}"}
+        w.judge(st, r[1], "tpar")
+    w.count("thread_tasks_judged", len(step["tasks"]))
+
+
 def do_par(w: World, step: dict) -> None:
     tasks = step["tasks"]
     results: dict[int, tuple] = {}
@@ -1054,6 +1109,8 @@ def do_par(w: World, step: dict) -> None:
 
 def execute(plan: dict) -> dict:
     common.setup_child()
+    from sim import threads as simthreads
+    simthreads.install_lock()
     segs = common.Segments(plan["seed"], plan["policy"], plan.get("decisions"))
     w = None
     status = "ok"
@@ -1102,9 +1159,10 @@ def execute(plan: dict) -> dict:
         "trace": digest(w.trace if w is not None else []),
         "counters": c,
         "sim_seconds": simclock.CLOCK.advanced,
-        "digest": digest([plan["envs"], plan["steps"], segs.decisions]),
+        "digest": digest([plan["envs"], plan["steps"], segs.decisions, w.tdecisions if w is not None else {}]),
         "nontrivial": status == "ok" and shared_steps >= 2 and spice >= 1,
         "decisions": segs.decisions,
+        "tdecisions": w.tdecisions if w is not None else {},
     }
     if violation:
         res["violation"] = violation
@@ -1317,6 +1375,19 @@ def gen_plan(seed: int, tier: str) -> dict:
                 prog = "gvprobe"
             steps.append({"op": "oneshot", "id": nid(), "src": STATEFUL[prog][0], "prog": prog,
                           "mode": rng.choice("sa"), "data": data_spec()})
+    # caller threads (own random stream: earlier plans keep their shape)
+    rng4 = random.Random(f"c09t:{seed}")
+    if rng4.random() < 0.12:
+        for _ in range(rng4.choice([1, 1, 2])):
+            ei = rng4.choice(sorted({e for _, e in handles}))
+            hs = [h for h, e in handles if e == ei]
+            same = rng4.choice(hs)
+            tasks = [{"h": same if rng4.random() < 0.6 else rng4.choice(hs),
+                      "data": {**data_spec(), "seed": rng4.randrange(1 << 30)}} for _ in range(rng4.choice([2, 2, 3]))]
+            need = {t["h"] for t in tasks}
+            lo = 1 + max(i for i, st in enumerate(steps) if st["op"] in ("parse", "get") and st.get("h") in need)
+            at = rng4.randrange(lo, len(steps) + 1)
+            steps[at:at] = [{"op": "tpar", "id": nid(), "tasks": tasks}]
     # bounded recovery: every handle rendered once more, unfaulted
     for hid, _ in handles:
         steps.append({"op": "render", "id": nid(), "h": hid, "mode": "s", "data": data_spec()})
@@ -1333,9 +1404,11 @@ class Engine:
         res = execute(plan)
         if res["status"] == "violation":
             plan["decisions"] = res.pop("decisions")
+            plan["tdecisions"] = res.pop("tdecisions", {})
             res["plan"] = plan
         else:
             res.pop("decisions", None)
+            res.pop("tdecisions", None)
         if job.get("want_sample"):
             res["sample"] = {"seed": job["seed"], "policy": plan["policy"],
                              "envs": [{k: (v if k != "partials" else sorted(v)) for k, v in e.items()} for e in plan["envs"]],
